@@ -387,4 +387,79 @@ example :
     (Tak.Server.parseServer [77, 32, 65, 49, 32, 65, 50, 32, 49]).toOption.map (·.type) = some Facts.mtSlideUp := by
   decide +kernel
 
+/-! ## towards `checkerSpec_minimax_statement`: the win-in-one verdict of the real check engine is SOUND -/
+
+/-- `EvaluateWinner` at or below `-WinThreshold`: the game is over and the side that just moved has won -/
+theorem evalWinner_lost {basis : Array W} {p c : Pos} {m : Move} (hap : p.apply basis m = .ok c)
+    (h : Facts.winThreshold ≤ -(Search.evalWinner c)) : c.gameOver = (true, p.toMove) := by
+  have hmv := Tak.apply_move' basis p c m hap
+  unfold Search.evalWinner at h
+  cases hg : c.gameOver with
+  | mk over w =>
+    rw [hg] at h
+    dsimp only at h
+    cases over with
+    | false =>
+      simp only [Bool.false_eq_true, if_false] at h
+      exact absurd h (by decide)
+    | true =>
+      simp only [if_true] at h
+      by_cases hn : (w == Color.none) = true
+      · rw [if_pos hn] at h; exact absurd h (by decide)
+      · rw [if_neg hn] at h
+        by_cases hm : (w == c.toMove) = true
+        · rw [if_pos hm] at h; exact absurd h (by decide)
+        · have h1 : w ≠ .none := by simpa using hn
+          have h2 : w ≠ c.toMove := by simpa using hm
+          have : w = p.toMove := by
+            unfold Pos.toMove at h2 ⊢
+            rw [hmv] at h2
+            by_cases hpar : p.move % 2 = 0
+            · have h3 : (p.move + 1) % 2 ≠ 0 := by omega
+              simp only [beq_iff_eq, hpar, h3, if_true, if_false] at h2 ⊢
+              cases w <;> simp_all
+            · have h3 : (p.move + 1) % 2 = 0 := by omega
+              simp only [beq_iff_eq, hpar, h3, if_true, if_false] at h2 ⊢
+              cases w <;> simp_all
+          rw [this]
+
+/-- **`check_winInOne_sound`** — the `→` half of `CheckerSpec.winInOne` for the REAL `f.check` (not `Precise`), at the
+level of `Position.Move` / `GameOver`: when the check engine (no table; any oracle, any stale buffers) reports
+`v ≥ WinThreshold` at `Stats.Depth ≤ 1` — the verdict on which `waitUndo` arms `undoTimeout` —, there IS a move after
+which the game is over and won by the side to move.  (Missing for `checkerSpec_minimax_statement`: the converse —
+coverage of every child by a depth-1 root, which needs `NoCancel` and `OrderOK` —, the translation of "a move `Move`
+accepts" into a rule-book step for hint moves outside `AllMoves`, and the `lost` clause at depth ≤ 3 with the slide
+reduction on.) -/
+theorem check_winInOne_sound (basis : Array W) (sym : Pos → List Search.H) (x : ChkOracle) (p : Pos)
+    (k : Search.Eng Move) (hk : k.hasTable = false) (v d : Int) (k' : Search.Eng Move)
+    (h : (checkOK basis sym).analyze x p k = .ok ((v, d), k')) (hc : v ≥ Facts.winThreshold ∧ d ≤ 1) :
+    ∃ m c, p.apply basis m = .ok c ∧ c.gameOver = (true, p.toMove) := by
+  apply Classical.byContradiction
+  intro hne
+  have hnw : Search.NoWinInOne (Search.takGame basis Search.evalWinner sym) p := by
+    intro m c hap
+    apply Classical.byContradiction
+    intro hge
+    have hap' : p.apply basis m = .ok c := hap
+    exact hne ⟨m, c, hap', evalWinner_lost hap' (by
+      have : ¬ (-(Search.evalWinner c) < Facts.winThreshold) := hge
+      omega)⟩
+  have h' : (match Search.analyze (Search.takGame basis Search.evalWinner sym) checkCfg x.1 p k with
+    | .ok ((_, v, st), s') => Except.ok ((v, st.depth), s')
+    | .error e => Except.error e) = .ok ((v, d), k') := h
+  cases hr : Search.analyze (Search.takGame basis Search.evalWinner sym) checkCfg x.1 p k with
+  | error e => rw [hr] at h'; cases h'
+  | ok r =>
+    obtain ⟨⟨pv, v0, st⟩, s'⟩ := r
+    rw [hr] at h'
+    cases h'
+    exact (Search.analyze_noTable (o := x.1) checkCfg p k hk _ hr).2 hnw hc
+
+/-- non-vacuity of `check_winInOne_sound`: in the 3×3 position of `C05.ExTak` (White wins by a3) the new check engine
+reports `WinBase` at depth 1 -/
+example :
+    ((checkOK C05.ExTak.basis (fun _ => [])).analyze Ex4.q C05.ExTak.mid (checkNew C05.ExTak.basis (fun _ => []))).toOption.map
+      (·.1) = some (Facts.winBase, 1) ∧ Facts.winBase ≥ Facts.winThreshold := by
+  decide +kernel
+
 end C07
